@@ -92,6 +92,22 @@ def run(cx):
             'labels-lt-qname-labels': r'^lt\(SIG::input\(.*\)\.num_labels,Name::num_labels\(\^arg1\.name\)\)$',
             'encloses-qname': r'^Name::zone_of\(Name::trim_to\(arg2\.name,.*\),\^arg1\.name\)$'}, expect=1, fn=c2)
 
+    # ------------------------------------------------------------ G4 closest-encloser search
+    if f:
+        CAND = r"phi\(<IntoIter<T;N> as Iterator>::next\(\[.*\]\)@Some\.0\|Name::base_name\(rec\(_\d+\)\)\)"
+        BEST = r"phi\(Name::base_name\(arg1\.name\)\|arg2@Some\.0\|" + CAND + r"\)"
+        upd = [s for s in cx.assigns(f, '^' + CAND + '$', place=None) if cx.has_guard(s, r'^Name::zone_of\(' + CAND + r',arg1\.name\)$')]
+        cx.check('C08.G4', len(upd) >= 1, f.path, 'stores', 'closest-encloser-update-present', str(len(upd)))
+        cx.guard('C08.G4', upd[:1], {'candidate-encloses-qname': r'^Name::zone_of\(' + CAND + r',arg1\.name\)$',
+                                     'longer-than-the-best-so-far': r'^lt\(Name::num_labels\(' + BEST + r'\),Name::num_labels\(' + CAND + r'\)\)$'}, fn=f)
+        # the bound is the RUNNING best: its label count is read again after every update (a snapshot taken before the search
+        # would let the second seed overwrite a longer encloser found from the first)
+        reads = [s for s in cx.calls(f, r'Name::num_labels$') if re.fullmatch(r'Name::num_labels\(' + BEST + r'\)', s.term)]
+        cx.check('C08.G4', len(reads) >= 1, f.path, 'calls', 'best-so-far-label-count-read', str(len(reads)))
+        for u in upd[:1]:
+            after = cx.reachable_from(f, [u.bb])
+            cx.check('C08.G4', any(r.bb in after for r in reads), f.path, u.key(), 'bound-re-read-after-each-update',
+                     'the label count of the closest encloser found so far is not read again after it is updated', u.loc)
     # ------------------------------------------------------------ G2 cover test
     c = cx.fn('C08.G2', N + 'find_nsec_covering_record::{closure@find#0}')
     if c:
